@@ -368,7 +368,13 @@ def run_unit(unit: str, dst: str, root: str):
             continue
         f = {"name": sp["name"], "kind": sp["kind"], "clauses": [], "total": "discharged", "messages": []}
         mine = [e for e in errors if any(sp["start"] <= l <= sp["end"] for l in e["lines"])]
-        timeout = any("rlimit" in e["text"] or "resource limit" in e["text"].lower() or "timed out" in e["text"].lower() for e in mine)
+        # Verus reports the proof failures it has identified (a named postcondition / invariant) and, separately, "Resource limit
+        # exceeded" for what it could not finish.  The named failures are refutations of obligations that were discharged on the
+        # unchanged tree; only the remainder (`total`, and everything when nothing is named) is undecided.
+        is_rl = lambda e: "rlimit" in e["text"] or "resource limit" in e["text"].lower() or "timed out" in e["text"].lower()
+        rl_hit = any(is_rl(e) for e in mine)
+        mine = [e for e in mine if not is_rl(e)] if any(not is_rl(e) for e in mine) else mine
+        timeout = rl_hit and all(is_rl(e) for e in mine)
         failed_clause_lines = set()
         failed_tag_lines = set()
         other = False
@@ -409,6 +415,8 @@ def run_unit(unit: str, dst: str, root: str):
         # untagged loop invariants state what the loop computes (the function's own property), not totality
         f["invariants"] = ("undecided" if timeout else "refuted") if inv_failed else "discharged"
         f["has_loops"] = bool(re.search(r"^\s*invariant\b", "\n".join(text.split("\n")[sp["start"]:sp["end"]]), re.M))
+        if rl_hit and f["total"] == "discharged" and not other:
+            f["total"] = "undecided"
         if other:
             f["total"] = "undecided" if timeout else "refuted"
         if failed_clause_lines and not any(c["status"] != "discharged" for c in f["clauses"]):
